@@ -190,6 +190,7 @@ type dtRow struct {
 	ok      bool
 	why     string
 	used    map[string]bool
+	forked  string // non-empty: this outcome lies behind a branch whose condition could not be decided
 }
 
 func (r dtRow) has(a string) bool {
@@ -203,85 +204,157 @@ func (r dtRow) has(a string) bool {
 
 // dtWalk interprets one row. start/startIdx: first instruction interpreted; from: the block we pretend to arrive from
 // (for phis in the start block; may be nil); stop: blocks that end the row (loop head).
+// A branch whose condition is not computable from the observations (a debug-logging test, a new observation the
+// table does not know) does not end the interpretation: both successors are followed (at most dtMaxForks such
+// branches per row) and the row has several outcomes; the expectation must hold for each of them.
+const dtMaxForks = 5
+
+type dtState struct {
+	b       *ssa.BasicBlock
+	idx     int
+	prev    map[*ssa.BasicBlock]*ssa.BasicBlock
+	memo    map[ssa.Value]dval
+	seen    map[*ssa.BasicBlock]bool
+	actions []string
+	forks   int
+	forked  string
+}
+
+func (st dtState) clone() dtState {
+	c := st
+	c.prev = map[*ssa.BasicBlock]*ssa.BasicBlock{}
+	for k, v := range st.prev {
+		c.prev[k] = v
+	}
+	c.memo = map[ssa.Value]dval{}
+	for k, v := range st.memo {
+		c.memo[k] = v
+	}
+	c.seen = map[*ssa.BasicBlock]bool{}
+	for k, v := range st.seen {
+		c.seen[k] = v
+	}
+	c.actions = append([]string(nil), st.actions...)
+	return c
+}
+
 func dtWalk(atom func(ssa.Value) (string, bool), vals map[string]dval, start *ssa.BasicBlock, startIdx int, from *ssa.BasicBlock,
-	stop func(*ssa.BasicBlock) bool, action func(ssa.Instruction) (string, bool)) dtRow {
-	e := &dtEnv{atom: atom, vals: vals, prev: map[*ssa.BasicBlock]*ssa.BasicBlock{}, memo: map[ssa.Value]dval{}, used: map[string]bool{}}
+	stop func(*ssa.BasicBlock) bool, action func(ssa.Instruction) (string, bool)) []dtRow {
+	used := map[string]bool{}
+	var out []dtRow
+	st0 := dtState{b: start, idx: startIdx, prev: map[*ssa.BasicBlock]*ssa.BasicBlock{}, memo: map[ssa.Value]dval{}, seen: map[*ssa.BasicBlock]bool{}}
 	if from != nil {
-		e.prev[start] = from
+		st0.prev[start] = from
 	}
-	row := dtRow{used: e.used}
-	b := start
-	idx := startIdx
-	seen := map[*ssa.BasicBlock]bool{}
-	for steps := 0; steps < 512; steps++ {
-		if seen[b] {
-			row.end, row.ok = "loop", true
-			return row
+	var run func(st dtState)
+	run = func(st dtState) {
+		e := &dtEnv{atom: atom, vals: vals, prev: st.prev, memo: st.memo, used: used}
+		row := dtRow{used: used, forked: st.forked}
+		finish := func() {
+			row.actions = st.actions
+			out = append(out, row)
 		}
-		seen[b] = true
-		var next *ssa.BasicBlock
-		for _, in := range b.Instrs[idx:] {
-			if lab, ok := action(in); ok {
-				// a call can be both an action and (its result) an observation; a label may name several actions ("a+b")
-				row.actions = append(row.actions, strings.Split(lab, "+")...)
-				continue
-			}
-			if v, isV := in.(ssa.Value); isV {
-				if _, isAtom := atom(v); isAtom {
-					continue // an observation, not an action
-				}
-			}
-			switch t := in.(type) {
-			case *ssa.Range, *ssa.Next:
+		for steps := 0; steps < 512; steps++ {
+			b := st.b
+			if st.seen[b] {
 				row.end, row.ok = "loop", true
-				return row
-			case *ssa.Return:
-				row.end, row.ok, row.retOK = "return", true, true
-				for _, rv := range t.Results {
-					d, ok := e.eval(rv)
-					if !ok {
-						row.retOK = false
+				finish()
+				return
+			}
+			st.seen[b] = true
+			var next *ssa.BasicBlock
+			for _, in := range b.Instrs[st.idx:] {
+				if lab, ok := action(in); ok {
+					// a call can be both an action and (its result) an observation; a label may name several actions ("a+b")
+					st.actions = append(st.actions, strings.Split(lab, "+")...)
+					continue
+				}
+				if v, isV := in.(ssa.Value); isV {
+					if _, isAtom := atom(v); isAtom {
+						continue // an observation, not an action
 					}
-					row.ret = append(row.ret, d)
 				}
-				if !row.retOK {
-					row.why = e.why
-				}
-				return row
-			case *ssa.Panic:
-				row.end, row.ok = "panic", true
-				return row
-			case *ssa.Jump:
-				next = b.Succs[0]
-			case *ssa.If:
-				c, ok := e.eval(t.Cond)
-				if !ok {
-					row.why = e.why
-					return row
-				}
-				if c.i != 0 {
+				switch t := in.(type) {
+				case *ssa.Range, *ssa.Next:
+					row.end, row.ok = "loop", true
+					finish()
+					return
+				case *ssa.Return:
+					row.end, row.ok, row.retOK = "return", true, true
+					for _, rv := range t.Results {
+						d, ok := e.eval(rv)
+						if !ok {
+							row.retOK = false
+						}
+						row.ret = append(row.ret, d)
+					}
+					if !row.retOK {
+						row.why = e.why
+					}
+					finish()
+					return
+				case *ssa.Panic:
+					row.end, row.ok = "panic", true
+					finish()
+					return
+				case *ssa.Jump:
 					next = b.Succs[0]
-				} else {
-					next = b.Succs[1]
+				case *ssa.If:
+					c, ok := e.eval(t.Cond)
+					if !ok {
+						if st.forks >= dtMaxForks {
+							row.why = e.why
+							finish()
+							return
+						}
+						// not decidable from the observations: follow both successors
+						for si, s := range b.Succs {
+							f := st.clone()
+							f.forks++
+							f.forked = e.why
+							f.prev[s] = b
+							if stop != nil && stop(s) {
+								r2 := dtRow{used: used, forked: f.forked, actions: f.actions, ok: true, end: "next"}
+								if from != nil && s != from {
+									r2.end = "exit"
+								}
+								out = append(out, r2)
+								continue
+							}
+							f.b, f.idx = s, 0
+							_ = si
+							run(f)
+						}
+						return
+					}
+					if c.i != 0 {
+						next = b.Succs[0]
+					} else {
+						next = b.Succs[1]
+					}
 				}
 			}
-		}
-		if next == nil {
-			row.why = "block without interpretable terminator"
-			return row
-		}
-		e.prev[next] = b
-		if stop != nil && stop(next) {
-			row.end, row.ok = "next", true
-			if from != nil && next != from {
-				row.end = "exit" // left the loop instead of going on to its next iteration
+			if next == nil {
+				row.why = "block without interpretable terminator"
+				finish()
+				return
 			}
-			return row
+			st.prev[next] = b
+			if stop != nil && stop(next) {
+				row.end, row.ok = "next", true
+				if from != nil && next != from {
+					row.end = "exit" // left the loop instead of going on to its next iteration
+				}
+				finish()
+				return
+			}
+			st.b, st.idx = next, 0
 		}
-		b, idx = next, 0
+		row.why = "step bound exceeded"
+		finish()
 	}
-	row.why = "step bound exceeded"
-	return row
+	run(st0)
+	return out
 }
 
 // dtDomain enumerates the cartesian product of the observation domains (names sorted for determinism).
@@ -342,12 +415,7 @@ type dtExpect struct {
 func (r *R) dtCheck(rule string, fn *ssa.Function, construct string, dom map[string][]dval, atom func(ssa.Value) (string, bool),
 	start *ssa.BasicBlock, startIdx int, from *ssa.BasicBlock, stop func(*ssa.BasicBlock) bool, action func(ssa.Instruction) (string, bool),
 	expect func(map[string]dval) *dtExpect) {
-	type res struct {
-		rows int
-		bad  string
-		und  string
-	}
-	byClause := map[string]*res{}
+	byClause := map[string]*dtRes{}
 	var order []string
 	total := 0
 	dtDomain(dom, func(vals map[string]dval) {
@@ -358,58 +426,14 @@ func (r *R) dtCheck(rule string, fn *ssa.Function, construct string, dom map[str
 		total++
 		c := byClause[ex.why]
 		if c == nil {
-			c = &res{}
+			c = &dtRes{}
 			byClause[ex.why] = c
 			order = append(order, ex.why)
 		}
 		c.rows++
-		row := dtWalk(atom, vals, start, startIdx, from, stop, action)
-		desc := "[" + dtRowString(vals) + "]"
-		if !row.ok {
-			if c.und == "" {
-				c.und = "row " + desc + " could not be interpreted: " + row.why
-			}
-			return
-		}
-		if row.end == "loop" {
-			// the rest of the row is behind an inner loop: only what was met before it is known
-			for _, m := range ex.mustNot {
-				if row.has(m) && c.bad == "" {
-					c.bad = "row " + desc + ": action " + m + " is taken, which the statement excludes"
-				}
-			}
-			ok := true
-			for _, m := range ex.must {
-				if !row.has(m) {
-					ok = false
-				}
-			}
-			if (!ok || ex.ret != nil) && c.und == "" && c.bad == "" {
-				c.und = "row " + desc + " runs into an inner loop before the decision is complete"
-			}
-			return
-		}
-		for _, m := range ex.must {
-			if !row.has(m) && c.bad == "" {
-				c.bad = "row " + desc + ": action " + m + " is not taken (actions: " + strings.Join(row.actions, ",") + "; ends with " + row.end + ")"
-			}
-		}
-		for _, m := range ex.mustNot {
-			if row.has(m) && c.bad == "" {
-				c.bad = "row " + desc + ": action " + m + " is taken, which the statement excludes"
-			}
-		}
-		if ex.end != "" && row.end != ex.end && c.bad == "" {
-			c.bad = "row " + desc + ": the step ends with `" + row.end + "`, the statement requires `" + ex.end + "`"
-		}
-		if ex.ret != nil && c.bad == "" {
-			if row.end != "return" || !row.retOK || len(row.ret) == 0 {
-				if c.und == "" {
-					c.und = "row " + desc + ": result not computable (" + row.why + ")"
-				}
-			} else if row.ret[0].i != *ex.ret {
-				c.bad = fmt.Sprintf("row %s: result is %d, the statement requires %d", desc, row.ret[0].i, *ex.ret)
-			}
+		rows := dtWalk(atom, vals, start, startIdx, from, stop, action)
+		for _, row := range rows {
+			dtJudge(c, ex, row, "["+dtRowString(vals)+"]")
 		}
 	})
 	if total == 0 {
@@ -483,4 +507,63 @@ func moduleActionDepth(in ssa.Instruction, depth int) (string, bool) {
 		return pre + f.Name(), true
 	}
 	return "", false
+}
+
+type dtRes struct {
+	rows int
+	bad  string
+	und  string
+}
+
+// dtJudge compares one outcome of a row with the expectation.
+func dtJudge(c *dtRes, ex *dtExpect, row dtRow, desc string) {
+	if row.forked != "" {
+		desc += " (on a path through a condition the observations do not decide: " + row.forked + ")"
+	}
+	if !row.ok {
+		if c.und == "" {
+			c.und = "row " + desc + " could not be interpreted: " + row.why
+		}
+		return
+	}
+	if row.end == "loop" {
+		// the rest of the row is behind an inner loop: only what was met before it is known
+		for _, m := range ex.mustNot {
+			if row.has(m) && c.bad == "" {
+				c.bad = "row " + desc + ": action " + m + " is taken, which the statement excludes"
+			}
+		}
+		ok := true
+		for _, m := range ex.must {
+			if !row.has(m) {
+				ok = false
+			}
+		}
+		if (!ok || ex.ret != nil) && c.und == "" && c.bad == "" {
+			c.und = "row " + desc + " runs into an inner loop before the decision is complete"
+		}
+		return
+	}
+	for _, m := range ex.must {
+		if !row.has(m) && c.bad == "" {
+			c.bad = "row " + desc + ": action " + m + " is not taken (actions: " + strings.Join(row.actions, ",") + "; ends with " + row.end + ")"
+		}
+	}
+	for _, m := range ex.mustNot {
+		if row.has(m) && c.bad == "" {
+			c.bad = "row " + desc + ": action " + m + " is taken, which the statement excludes"
+		}
+	}
+	if ex.end != "" && row.end != ex.end && c.bad == "" {
+		c.bad = "row " + desc + ": the step ends with `" + row.end + "`, the statement requires `" + ex.end + "`"
+	}
+	if ex.ret != nil && c.bad == "" {
+		if row.end != "return" || !row.retOK || len(row.ret) == 0 {
+			if c.und == "" {
+				c.und = "row " + desc + ": result not computable (" + row.why + ")"
+			}
+		} else if row.ret[0].i != *ex.ret {
+			c.bad = fmt.Sprintf("row %s: result is %d, the statement requires %d", desc, row.ret[0].i, *ex.ret)
+		}
+	}
 }
